@@ -67,7 +67,7 @@ def rigid(t, inside=False):
 def terms_for(tier, strict=False):
     b = INFO["bounds"][tier]
     out = [(t, "T1", b["L_T1"]) for t in G.tier1()] + [(t, "T2", b["L_T2"]) for t in G.tier2(strict)] + [(t, "T3", b["L_T3"]) for t in G.tier3(strict)] \
-        + [(t, "T4", b["L_T2"]) for t in G.tier4()] + [(t, "X", b["L_T2"]) for t in extra_terms() + G.discard_terms()]
+        + [(t, "T4", b["L_T2"]) for t in G.tier4()] + [(t, "X", b["L_T2"]) for t in extra_terms() + G.discard_terms() + G.zero_size_terms()]
     if tier == "thorough":
         out += [(t, "T5", b["L_T5"]) for t in G.tier5(strict)]
     return out
